@@ -128,7 +128,10 @@ def compare_expr(e_text: str, ctx_kind: str) -> tuple[str, str]:
             for ident, nt in gen.nonterminals.items():
                 got_text = got_text.replace(ident, {"<a>": "SYM_A", "<b>": "SYM_B"}[nt.symbol.name()])
         else:
-            rb = [c for c in f.constraints if type(c).__name__ == "RepetitionBoundsConstraint"][0]
+            rbs = [c for c in f.constraints if type(c).__name__ == "RepetitionBoundsConstraint"]
+            if not rbs:
+                return "skipped", "a constant bound is folded into the grammar, no expression is kept"
+            rb = rbs[0]
             got_text, _, searches = rb.expr_data_min
             for ident, s_ in searches.items():
                 got_text = got_text.replace(ident, {"<a>": "SYM_A", "<b>": "SYM_B"}[s_.format_as_spec()])
